@@ -57,8 +57,8 @@ var keyProp = map[string]string{
 type verdict struct {
 	Problems    []problem `json:"problems"`
 	Lines       int       `json:"lines"`
-	UserLogins  int       `json:"user_logins"`
-	UserActions int       `json:"user_actions"`
+	UserLogins  int       `json:"user_logins"`           // without the harness' sentinel
+	UserActions int       `json:"user_actions"`          // without the harness' sentinel
 	Expected    int       `json:"expected_user_actions"` // mandatory ones
 }
 
@@ -112,7 +112,9 @@ func judge(sc *scenario, output []byte) verdict {
 		ident := ev.Subjects["loggedAs"] + "\x00" + ev.Subjects["pid"]
 		switch ev.Type {
 		case "UserLogin":
-			v.UserLogins++
+			if !ev.sentinel() {
+				v.UserLogins++
+			}
 			if prev, dup := seenRaw[ev.raw]; dup {
 				add("output:duplicate", "output line %d repeats the UserLogin of line %d: %s", ev.lineNo, prev, trunc(ev.raw))
 			}
@@ -121,7 +123,9 @@ func judge(sc *scenario, output []byte) verdict {
 				okLogin[ident] = true
 			}
 		case "UserAction":
-			v.UserActions++
+			if !ev.sentinel() {
+				v.UserActions++
+			}
 			k := ev.Metadata.AuditID + "@" + ev.LoggedAt.UTC().Format(time.RFC3339Nano)
 			if prev, dup := seenAction[k]; dup {
 				add("output:duplicate", "output line %d repeats the UserAction %s of line %d", ev.lineNo, k, prev)
